@@ -98,3 +98,26 @@ func DebugFields(p *core.Program, filter string) {
 		fmt.Printf("%s.%s = %s\n", g.Type, g.Name, strings.Join(getterValue(g), "  ||  "))
 	}
 }
+
+// DebugWrites prints the write log of each path of a function evaluated with opaque arguments.
+func DebugWrites(p *core.Program, name string) {
+	fn := p.Func("", name)
+	if i := strings.Index(name, "."); i > 0 {
+		fn = p.Method("", name[:i], name[i+1:])
+	}
+	if fn == nil {
+		fmt.Println("not found")
+		return
+	}
+	args := []bitprov.Val{recvSlice()}
+	for i := 1; i < len(fn.Params); i++ {
+		args = append(args, bitprov.Opaque{Why: "param " + fn.Params[i].Name()})
+	}
+	ev := &bitprov.Eval{MaxPaths: 8, Inline: func(f *ssa.Function) bool { return f.Name() != "AppendOptions" }}
+	for i, rt := range ev.Run(fn, args) {
+		fmt.Printf("path %d: ret=%s panic=%v cond=%s\n", i, bitprov.RetString(rt), rt.Panic, rt.Path)
+		for _, w := range rt.Writes {
+			fmt.Printf("    %s[%s:%s] <- %s (%s)\n", w.Dst.Src, w.Dst.Lo.String(), w.Dst.Hi.String(), w.Val, w.Kind)
+		}
+	}
+}
